@@ -165,6 +165,7 @@ def run_cfg(cfg, exe, driver, tier, seed, stats, disagreements, failures, oracle
             dlines.append(case_line(c['cid'], 'encw', c['tid'], sexp(c['t']), shim, repr_, c['writer']))
     model = {} if oracle_only else run_cases(driver, dlines)
     fam, classes = Counter(), Counter()
+    mism = []
     for c in cases:
         repr_, out = parsed[c['cid']]
         fam[c['fam']] += 1
@@ -186,8 +187,50 @@ def run_cfg(cfg, exe, driver, tier, seed, stats, disagreements, failures, oracle
             continue
         m = model.get(c['cid'])
         if m != out:
-            disagreements.append(dict(rec, model=short(m, 300), what='%s %s value %s writer %s: impl %s, model %s [%s]' % (
-                'encw' if c['writer'] else 'object_length', rust(c['t']), short(repr_, 60), short(str(c['writer']), 80), short(out, 120), short(m, 120), cfg)))
+            mism.append((c, repr_, out, dict(rec, model=short(m, 300), what='%s %s value %s writer %s: impl %s, model %s [%s]' % (
+                'encw' if c['writer'] else 'object_length', rust(c['t']), short(repr_, 60), short(str(c['writer']), 80), short(out, 120), short(m, 120), cfg))))
+    # The model's `ser` cuts the stream into write_all calls as the code did when it was transcribed.  C12 does not
+    # depend on that cut (Properties/C12rechunk.v: every statement holds for ANY chunking of the same stream), so a
+    # mismatch is first re-examined against the generalised model: ask the implementation how it cuts this value
+    # (a writer that records each buffer), feed the MODEL's stream cut that way (IoRechunk.to_writer_cs) to the same
+    # writer, and compare again.  Only what still differs is a disagreement.
+    if mism:
+        vals = {}
+        for c, repr_, out, d in mism:
+            if c['writer'] is not None:
+                vals.setdefault((c['tid'], repr_), c)
+        cl = [case_line('k%d' % i, 'encw', tid, sexp(c['t']), repr_, 'c') for i, ((tid, repr_), c) in enumerate(vals.items())]
+        cres = run_cases(exe, cl)
+        lens = {}
+        for i, key in enumerate(vals):
+            r = cres.get('k%d' % i) or ''
+            if '\t' in r and ' chunks=' in r:
+                lens[key] = r.rsplit(' chunks=', 1)[1].strip()
+        relines, idx = [], {}
+        for n, (c, repr_, out, d) in enumerate(mism):
+            key = (c['tid'], repr_)
+            if c['writer'] is not None and key in lens:
+                idx[n] = 'q%d' % n
+                relines.append(case_line('q%d' % n, 'encwc', c['tid'], sexp(c['t']), shim, repr_, c['writer'], lens[key]))
+        rem = run_cases(driver, relines) if relines else {}
+        rechunked = set()
+        for n, (c, repr_, out, d) in enumerate(mism):
+            m2 = rem.get(idx.get(n))
+            if m2 is not None and m2 == out:
+                rechunked.add((c['tid'], repr_))
+            else:
+                if m2 is not None:
+                    d['model_rechunked'] = short(m2, 300)
+                    d['what'] += '; with the implementation\'s own chunking (%s) the model gives %s' % (short(lens.get((c['tid'], repr_), '?'), 60), short(m2, 120))
+                disagreements.append(d)
+        if rechunked:
+            stats['rechunked_values'] = stats.get('rechunked_values', 0) + len(rechunked)
+            stats['rechunked_note'] = ('for these values the implementation cuts the byte stream into write_all calls differently from Ser.ser; '
+                                       'all their cases agree with the generalised model to_writer_cs on the implementation\'s chunking, for which '
+                                       'Properties/C12rechunk.v proves every statement of C12')
+            stats.setdefault('rechunked_samples', [])
+            for (tid, repr_) in list(rechunked)[:5]:
+                stats['rechunked_samples'].append({'type': rust(vals[(tid, repr_)]['t']), 'value': short(repr_, 80), 'chunks': short(lens[(tid, repr_)], 80)})
     stats['evaluations'] += len(cases) + len(encs)
     stats['families'][cfg] = dict(fam)
     for k, v in classes.items():
@@ -201,6 +244,7 @@ def run_cfg(cfg, exe, driver, tier, seed, stats, disagreements, failures, oracle
 
 def run(tier, seed, t0):
     coq = coq_property(PID)
+    coq = also_property(coq, 'C12rechunk')     # the statements of C12 for an arbitrary chunking of the stream
     driver = driver_big()
     cfgs = ['std-strict', 'nostd-strict'] if tier == 'quick' else ['std-strict', 'std-loose', 'nostd-strict', 'nostd-loose']
     exes, disagreements = ensure_harnesses(cfgs)
